@@ -29,7 +29,9 @@ func pointDetail(name string, obj interface{}) string {
 		return o.GetHash().String()
 	case string:
 		return "" // store addresses: one database per world in these scenarios
-	case interface{ GetHash() interface{ String() string } }:
+	case interface {
+		GetHash() interface{ String() string }
+	}:
 		return o.GetHash().String()
 	}
 	return fmt.Sprint(obj)
@@ -105,7 +107,7 @@ func (w *ConcWriters) Do(a string) error {
 	return sim.Quiesce()
 }
 
-func (w *ConcWriters) Key() string                            { return "" }
+func (w *ConcWriters) Key() string                             { return "" }
 func (w *ConcWriters) Check(hist []string) []explore.Violation { return nil }
 
 func listPayloads(s iface.EventLogStore) (map[string]int, error) {
@@ -254,6 +256,7 @@ func init() {
 				return
 			}
 			d := &explore.ScheduleDFS{
+				Settle:   settle,
 				Scenario: a.Name(),
 				New:      func() (explore.World, error) { return NewConcWriters(a.N, a.Per) },
 				Bound:    a.Bound, Horizon: 400, Stats: c.Stats, Journal: c.JournalHist, Expired: c.Expired,
